@@ -2,6 +2,7 @@
 import itertools
 import numpy as np
 from hypothesis import strategies as st
+from ..strat import ints
 from .. import specs, refsel, build, dsgwalk, identity
 from ..core import Result, viol, exc_sig
 from ..observe import observe
@@ -86,7 +87,7 @@ def _random_case(draw, tier):
             con['type'] = 'UNORDERED'
     else:
         spec = draw(specs.add_linked_dvs(spec))
-    return {'spec': spec, 'mode': draw(st.sampled_from(['walk', 'COMPLETE', 'FAST'])), 'vseed': draw(st.integers(0, 9999))}
+    return {'spec': spec, 'mode': draw(st.sampled_from(['walk', 'COMPLETE', 'FAST'])), 'vseed': draw(ints(0, 9999))}
 
 
 def strategy(tier):
@@ -286,6 +287,6 @@ def _dv_mult(model, arch):
 def extra_campaigns(tier):
     n = 30 if tier == 'quick' else 400
     unit = st.fixed_dictionaries({'unit': st.fixed_dictionaries({
-        'type': st.sampled_from(TYPES), 'k': st.integers(2, 3),
-        'rows': st.lists(st.integers(0, 63), min_size=1, max_size=12)})})
+        'type': st.sampled_from(TYPES), 'k': ints(2, 3),
+        'rows': st.lists(ints(0, 63), min_size=1, max_size=12)})})
     return [('unit_submatrices', unit, n)]
